@@ -92,9 +92,10 @@ class Prop:
 
 
 def load_known_findings():
-    path = os.path.join(VERIF, "known_findings.jsonl")
+    """known_findings.jsonl and known_findings.<id>.jsonl (committed; never written at run time)"""
+    import glob
     res = []
-    if os.path.exists(path):
+    for path in sorted(glob.glob(os.path.join(VERIF, "known_findings*.jsonl"))):
         with open(path) as f:
             for line in f:
                 line = line.strip()
